@@ -88,8 +88,11 @@ def c04(tier, seed):
     run = Run("C04", tier, seed, "other", "bin/check C04 --tier " + tier)
     comp_layer(run, "C04", ("outp", "inp", "pwr"), (1, 2), seed, tier)
     from . import system_layer as SL
-    SL.init_state(run); SL.graph_helpers(run, "TABLE"); SL.propagation(run)
-    table_layer(run, "dead-rail-oracle", ["C04"], seed, _n(tier, 600, 20000), dict(p_dead_source=0.35, p_phases=0.7, p_mux=0.4))
+    SL.init_state(run); SL.graph_helpers(run, "TABLE"); SL.propagation(run); SL.phase_lkup(run); SL.child_curr(run)
+    table_layer(run, "dead-rail-oracle", ["C04"], seed, _n(tier, 600, 20000), dict(p_dead_source=0.35, p_phases=0.7, p_mux=0.4, p_ghost=0.3))
+    from bounded import families as BF, hist
+    run.add_bounded("every single edit / configuration call from the base systems, then the table oracle", hist.single_call_family(["C04"]))
+    run.add_bounded("solve, re-configure phases, solve vs fresh system", BF.reconfig_family(seed, _n(tier, 250, 6000), ["C04"]))
     run.notes.append("composition by depth (paper lemma): parent outputs 0 V => child is dead => outputs 0 V and draws 0 A")
     return run.finish()
 
@@ -104,6 +107,7 @@ def c03(tier, seed):
     SL.graph_helpers(run, "TABLE")
     from bounded import families as BF
     run.add_bounded("overload+tolerance-grid", BF.convergence_family(seed, _n(tier, 300, 6000)))
+    run.add_bounded("solve, re-configure phases, solve vs fresh system", BF.reconfig_family(seed, _n(tier, 250, 6000), ["C03"]))
     table_layer(run, "modest-drop systems converge with default settings", ["C03"], seed, _n(tier, 400, 20000), dict(p_table=0.3))
     run.notes.append("'a modest-drop steady state is always found' is a numerical-convergence statement: bounded only (every generated modest-drop system must converge)")
     return run.finish()
@@ -132,6 +136,7 @@ def c06(tier, seed):
     SL.phase_lkup(run); SL.propagation(run); SL.solve_slice(run, "C06"); SL.registry(run, "C06"); SL.graph_helpers(run, "TABLE"); SL.init_state(run, "C06")
     from bounded import families as BF
     run.add_bounded("phase equivalences (solve(phase=p) == rows of p; unknown phase; no-config == phase-less)", BF.phase_family(seed, _n(tier, 150, 4000)))
+    run.add_bounded("solve, re-configure phases, solve vs fresh system", BF.reconfig_family(seed, _n(tier, 250, 6000), ["C06"]))
     from bounded import hist
     run.add_bounded("every single edit / configuration call from the base systems, then the table oracle", hist.single_call_family(["C06"]))
     table_layer(run, "solve-table-oracle/phases", ["C06"], seed, _n(tier, 400, 20000), dict(p_phases=1.0))
@@ -148,6 +153,7 @@ def c07(tier, seed):
     table_layer(run, "aggregate-rows oracle", ["C07"], seed, _n(tier, 500, 20000), dict(n_sources=(1, 3), p_mux=0.5, p_phases=0.6, p_dead_source=0.2))
     from bounded import families as BF
     run.add_bounded("construction orders of the same structure", BF.order_family(seed, _n(tier, 60, 2000), ["C07"]))
+    run.add_bounded("mux live/dead patterns: attribution and aggregate rows", BF.mux_family(seed, tier, ("C07",)))
     run.add_bounded("re-timed phases (solve, set_sys_phases with other durations, solve) vs fresh system", BF.retime_family(seed, _n(tier, 60, 1500)))
     run.notes.append("the pandas aggregation code of solve() is outside P reach: Subsystem/total/average rows are decided bounded")
     return run.finish()
@@ -197,6 +203,7 @@ def c16(tier, seed):
     _hist(run, ["C16"], seed, tier)
     from bounded import families as BF
     run.add_bounded("construction orders of the same structure", BF.order_family(seed, _n(tier, 60, 2000), ["C16"]))
+    run.add_bounded("solve, re-configure phases, solve vs fresh system", BF.reconfig_family(seed, _n(tier, 250, 6000), ["C16"]))
     run.notes.append("whole-history equivalence of two System objects is not a per-function contract: decided bounded (edited vs rebuilt from an independent reference model)")
     return run.finish()
 
